@@ -1,5 +1,6 @@
 import CGV.Props.C13
 import CGV.Props.C13Chain
+import CGV.Props.C13Tokens
 #print axioms CGV.C13.C13_descriptors_after_atom
 #print axioms CGV.C13.C13_descriptors_at_end
 #print axioms CGV.stripAux_descs
@@ -9,3 +10,6 @@ import CGV.Props.C13Chain
 #print axioms CGV.C13.stripAux_chain
 #print axioms CGV.C13.stripAux_descs_exact
 #print axioms CGV.C13.foldl_afterItem_fields
+#print axioms CGV.C13.stripAux_tokens
+#print axioms CGV.C13.fold_fields
+#print axioms CGV.C13.C13_tokens
